@@ -943,6 +943,13 @@ func InlinedNormalForm(dir string, base map[string][]byte, P0 *Program, maxRound
 		}
 		P, ov = P2, nov
 		total += n
+		if d := os.Getenv("ELYSLINT_NF_DUMP"); d != "" {
+			for f, b := range nov {
+				if base == nil || string(base[f]) != string(b) {
+					_ = os.WriteFile(d+"/"+strings.ReplaceAll(strings.TrimPrefix(f, dir+"/"), "/", "__"), b, 0o644)
+				}
+			}
+		}
 		log = append(log, l...)
 	}
 	return P, total, log, nil
